@@ -2,7 +2,7 @@
 # usage: batch-mutants.sh <property> [budget]   (mutants in /tmp/mutout/<property>/<k>/)
 # Confirms each mutant in a scratch worktree, then runs the property's check against it.
 prop="$1"; budget="${2:-20}"
-for d in /tmp/mutout/$prop/*/; do
+for d in ${MUTOUT:-/tmp/mutout}/$prop/*/; do
   k=$(basename "$d")
   [ -f "$d/patch.diff" ] || continue
   c=$(/verif/tools/confirm-mutant.sh "$d/patch.diff" "$d/demo_test.go" 2>&1 | tail -1)
